@@ -60,13 +60,8 @@ inductive TakePrefix where
   | err
   deriving DecidableEq, Repr
 
-/-- `take_prefix` -/
-def takePrefix (chars : List Char) : TakePrefix :=
-  -- `chars.next_if_eq(&'0').is_some()`
-  let (leadingZeros, chars) : Bool × List Char :=
-    match chars with
-    | '0' :: rest => (true, rest)
-    | _ => (false, chars)
+/-- `take_prefix`, after `leading_zeros` has been determined. -/
+def takePrefixAfterZero (leadingZeros : Bool) (chars : List Char) : TakePrefix :=
   match chars with
   | [] => if leadingZeros then .ok .singleZero [] else .ok .nonInteger []
   | c :: rest =>
@@ -80,6 +75,12 @@ def takePrefix (chars : List Char) : TakePrefix :=
     else if c = '-' ∨ c = '+' then .err
     else if leadingZeros then .err
     else .ok .nonInteger (c :: rest)
+
+/-- `take_prefix`: `chars.next_if_eq(&'0').is_some()`, then the rest. -/
+def takePrefix (chars : List Char) : TakePrefix :=
+  match chars with
+  | c :: rest => if c = '0' then takePrefixAfterZero true rest else takePrefixAfterZero false chars
+  | [] => takePrefixAfterZero false chars
 
 /-- The closure `end_of_integer_result`. -/
 def endOfInteger (sign : Option Sign) (leadingZeros : Bool) (radix : Radix) : PR Int :=
@@ -104,12 +105,25 @@ def digitLoop (radix : Radix) (eoi : PR Int) : List Char → Int → DigitLoop
       if ¬ inI32 next then .early .err else
       digitLoop radix eoi rest next
 
-/-- `parse_integer(string, require_sign)` -/
-def parseIntegerWith (string : List Char) (requireSign : Bool) : PR Int :=
-  if string.isEmpty then .none else
-  let (firstSign, chars) := takeSign string
-  if requireSign = true ∧ firstSign.isNone then .err else
-  match takePrefix chars with
+/-- `parse_integer`, last part: from "Check if anything follows prefix" to the end. -/
+def parseDigits (sign : Option Sign) (leadingZeros : Bool) (radix : Radix) (chars : List Char) :
+    PR Int :=
+  let eoi := endOfInteger sign leadingZeros radix
+  if chars.isEmpty then eoi else
+  match digitLoop radix eoi chars 0 with
+  | .early r => r
+  | .finished rest v =>
+    if ¬ rest.isEmpty then .panic "integer.rs: assert!(chars.next().is_none())" else
+    match sign with
+    | none => .ok v
+    | some s =>
+      let r := v * s.toInt
+      if ¬ inI32 r then .panic "integer.rs: integer *= sign overflow" else .ok r
+
+/-- `parse_integer`, middle part: what is done with the result of `take_prefix`, up to the
+reconciliation of the two signs. -/
+def afterPrefix (firstSign : Option Sign) (p : TakePrefix) : PR Int :=
+  match p with
   | .err => .err
   | .ok .singleZero _ => .ok 0
   | .ok .nonInteger _ => if firstSign.isSome then .err else .none
@@ -117,19 +131,18 @@ def parseIntegerWith (string : List Char) (requireSign : Bool) : PR Int :=
     let (secondSign, chars) := takeSign chars
     match firstSign, secondSign with
     | some _, some _ => .err
-    | firstSign, secondSign =>
-      let sign : Option Sign := match firstSign with | some s => some s | none => secondSign
-      let eoi := endOfInteger sign leadingZeros radix
-      if chars.isEmpty then eoi else
-      match digitLoop radix eoi chars 0 with
-      | .early r => r
-      | .finished rest v =>
-        if ¬ rest.isEmpty then .panic "integer.rs: assert!(chars.next().is_none())" else
-        match sign with
-        | none => .ok v
-        | some s =>
-          let r := v * s.toInt
-          if ¬ inI32 r then .panic "integer.rs: integer *= sign overflow" else .ok r
+    | some s, none => parseDigits (some s) leadingZeros radix chars
+    | none, secondSign => parseDigits secondSign leadingZeros radix chars
+
+def parseAfterSign (firstSign : Option Sign) (chars : List Char) : PR Int :=
+  afterPrefix firstSign (takePrefix chars)
+
+/-- `parse_integer(string, require_sign)` -/
+def parseIntegerWith (string : List Char) (requireSign : Bool) : PR Int :=
+  if string.isEmpty then .none else
+  let (firstSign, chars) := takeSign string
+  if requireSign = true ∧ firstSign.isNone then .err else
+  parseAfterSign firstSign chars
 
 /-- `Integer::try_parse` -/
 def parseInteger (s : List Char) : PR Int := parseIntegerWith s false
